@@ -16,7 +16,7 @@ func checkC07(r *Run) {
 		ruleA9Event(r, p, true)
 		ruleA13(r, p, map[string]bool{"": true}, "c")
 	}
-	r.Floor("A16", 220)
+	r.Floor("A16", 150)
 	r.Floor("A9alloc", 120)
 	r.Floor("A13c", 16)
 }
